@@ -52,6 +52,7 @@ func replayFile(run *ev.Run, path string) {
 	bad := func(detail string) {
 		run.Violate(ev.Violation{Sig: f.Sig, Detail: "replay: " + detail, Replay: f.Replay})
 	}
+	cleanup := func() {}
 	switch kind {
 	case "history-dependence":
 		s0 := sign(m.fresh()(r.X, r.Y))
@@ -97,7 +98,7 @@ func replayFile(run *ev.Run, path string) {
 		}
 	case "two-process-scan-order", "two-process-lookup-miss":
 		store := newDB("replay")
-		defer store.close()
+		cleanup = store.close // (run.Finish exits the process: deferred calls would not run)
 		build := func(name string, keys []key) []string {
 			labs := make([]string, len(keys))
 			for i, k := range keys {
@@ -151,6 +152,7 @@ func replayFile(run *ev.Run, path string) {
 	default:
 		must(fmt.Errorf("no replay support for sig %q", f.Sig), "replay")
 	}
+	cleanup()
 	closeDefault()
 	run.Set("evaluations", 1)
 	run.Set("distinct_nontrivial", 1)
